@@ -16,10 +16,10 @@ import (
 type outcome int
 
 const (
-	outFull     outcome = iota // everything installed
-	outNoDoc                   // commitments installed, document not changed (update) / empty (create, recover): window or patch application failed
-	outNoDelta                 // create/recover: recovery commitment + anchor origin installed, update commitment empty, document empty
-	outRefused                 // error, previous state stays in force
+	outFull    outcome = iota // everything installed
+	outNoDoc                  // commitments installed, document not changed (update) / empty (create, recover): window or patch application failed
+	outNoDelta                // create/recover: recovery commitment + anchor origin installed, update commitment empty, document empty
+	outRefused                // error, previous state stays in force
 )
 
 func (o outcome) String() string {
